@@ -387,4 +387,90 @@ theorem segHyp_of_slot {tcp : Bool} {s : Slot} (hok : CoalOK tcp s) (hn : 2 ≤ 
           · intro _; rfl
   · rw [Fi.pay, hhl, hL, htrim]; rfl
 
+/-! ### a whole slot -/
+
+theorem pay_len {tcp : Bool} {s : Slot} (hok : CoalOK tcp s) {i : Nat} {x : Bytes} (hx : s.payIovs[i]? = some x) :
+    0 < x.length ∧ x.length ≤ s.gsoSize ∧ (i + 1 < s.payIovs.length → x.length = s.gsoSize) := by
+  have hi := getElem?_lt hx
+  rw [hok.npay] at hi
+  obtain ⟨info, parse, Fi⟩ := hok.pk i s.ghost[i] (List.getElem?_eq_getElem hi)
+  have P := parseAt_facts parse
+  have := Fi.pay
+  rw [hx] at this
+  have e := Option.some.inj this
+  have hl : x.length = info.payLen := by rw [e]; exact slice_len_of_le _ _ _ P.le
+  refine ⟨by rw [hl]; exact Fi.payPos, by rw [hl]; exact Fi.payLe, ?_⟩
+  intro hlt
+  rw [hl]; exact (Fi.full (by rw [← hok.npay]; exact hlt)).1
+
+theorem slot_seg {tcp : Bool} {s : Slot} (hok : SlotOK tcp s) :
+    (kernelSeg (slotOut tcp s)).map mask = s.ghost.map mask := by
+  unfold slotOut
+  cases hv : s.verbatim with
+  | true =>
+    simp only [true_or, ↓reduceIte, kernelSeg]
+    rw [hok.verb hv]
+  | false =>
+    have hc := hok.coal hv
+    simp only [Bool.false_eq_true, false_or]
+    by_cases h1 : s.numSeg = 1
+    · rw [if_pos h1]
+      simp only [kernelSeg]
+      have hn : s.ghost.length = 1 := by rw [← hc.numSeg]; exact h1
+      have hraw := hc.raw
+      rw [if_neg (by omega)] at hraw
+      have : s.ghost = [seedOf s] := by
+        cases hg : s.ghost with
+        | nil => rw [hg] at hn; simp at hn
+        | cons a t =>
+          rw [hg] at hn
+          simp at hn
+          subst hn
+          simp [seedOf, hg]
+      rw [this, hraw]
+    · rw [if_neg h1]
+      have hn : 2 ≤ s.ghost.length := by
+        have h2 := hc.numSeg
+        have h3 : s.ghost.length ≠ 0 := fun e => hc.ne (List.eq_nil_of_length_eq_zero e)
+        omega
+      have SF := seedFacts hc
+      unfold flushSlot
+      simp only [kernelSeg]
+      -- the payload list has at least two entries; its first entry has gsoSize bytes
+      have hnp : 2 ≤ s.payIovs.length := by rw [hc.npay]; exact hn
+      obtain ⟨a, b, rest, hpays⟩ : ∃ a b rest, s.payIovs = a :: b :: rest := by
+        cases hp : s.payIovs with
+        | nil => rw [hp] at hnp; simp at hnp
+        | cons a t =>
+          cases t with
+          | nil => rw [hp] at hnp; simp at hnp
+          | cons b rest => exact ⟨a, b, rest, rfl⟩
+      have ha : a.length = s.gsoSize := by
+        have := pay_len hc (i := 0) (x := a) (by rw [hpays]; rfl)
+        exact this.2.2 (by omega)
+      have hchunks : chunks a.length s.payIovs.flatten = s.payIovs := by
+        apply chunks_flatten
+        · rw [ha]; exact SF.gPos
+        · intro x hx
+          obtain ⟨i, hi⟩ := List.getElem?_of_mem hx
+          have := pay_len hc hi
+          rw [ha]; exact ⟨this.1, this.2.1⟩
+        · intro i x hx hlt
+          rw [ha]; exact (pay_len hc hx).2.2 hlt
+      rw [hpays]
+      simp only [kernelSegGSO]
+      rw [← hpays, hchunks]
+      apply List.ext_getElem?
+      intro i
+      simp only [List.getElem?_map, getElem?_enumFrom]
+      by_cases hi : i < s.ghost.length
+      · have hp := List.getElem?_eq_getElem hi
+        obtain ⟨SH, hpay⟩ := segHyp_of_slot hc hn hp
+        rw [hp, hpay]
+        simp only [Option.map_some, Nat.zero_add, Option.some.injEq]
+        rw [slice_zero, ha, hc.npay, seg_mask_eq SH, mask_trim]
+      · have hnp' := hc.npay
+        rw [List.getElem?_eq_none (by omega), List.getElem?_eq_none (by omega)]
+        rfl
+
 end Nebula.Lemmas.Coalesce
